@@ -555,12 +555,18 @@ class Scenario:
         payload = self._payload() if payload is None else payload
         ev = {"ev": "rx", "kind": kind, "src": s.addr, "sn": sn, "tst": tst, "pos": (la, lo), "rhl": rhl, "mhl": mhl,
               "scf": tc >> 7, "pai": pai}
-        if kind == "beacon":
-            pkt = stack.beacon_bytes(s.addr, tst, la, lo, pai=pai)
+        if kind in ("beacon", "shb"):
+            pkt = (stack.beacon_bytes(s.addr, tst, la, lo, pai=pai) if kind == "beacon"
+                   else stack.shb_bytes(s.addr, tst, la, lo, payload, pai=pai, nh=nh, tc=tc))
             ev.pop("sn")
-        elif kind == "shb":
-            pkt = stack.shb_bytes(s.addr, tst, la, lo, payload, pai=pai, nh=nh, tc=tc)
-            ev.pop("sn")
+            # single-hop packets are sent with RHL = MHL = 1; a share of them arrives with other hop fields
+            # (a receiver must discard RHL > MHL for every packet type)
+            if rng.random() < 0.2:
+                b = bytearray(pkt)
+                b[3], b[10] = rhl, mhl
+                pkt = bytes(b)
+            else:
+                ev["rhl"], ev["mhl"] = 1, 1
         elif kind == "tsb":
             pkt = stack.tsb_bytes(s.addr, sn, tst, la, lo, payload, rhl=rhl, mhl=mhl, pai=pai, nh=nh, tc=tc)
         elif kind in ("gbc", "gac"):
